@@ -651,17 +651,25 @@ func (tnc *TNC) set(cmd command, param interface{}) (err error) {
 	r := tnc.in.Listen()
 	defer r.Close()
 
+	line := string(cmd)
 	if param != nil {
-		tnc.out <- fmt.Sprintf("%s %v", cmd, param)
-	} else {
-		tnc.out <- string(cmd)
+		line = fmt.Sprintf("%s %v", cmd, param)
 	}
 
+	tnc.out <- line
+	sent := 1
 	for msg := range r.Msgs() {
 		if msg.cmd == cmd {
 			return
 		} else if msg.cmd == cmdFault {
 			return errors.New(msg.String())
+		} else if msg.cmd == cmdCRCFault {
+			// The TNC did not get the frame (serial host interface): send it again.
+			if sent == 3 {
+				return errors.New("CRC failure")
+			}
+			tnc.out <- line
+			sent++
 		}
 	}
 	return ErrTNCClosed
@@ -700,12 +708,20 @@ func (tnc *TNC) get(cmd command) (interface{}, error) {
 	defer r.Close()
 
 	tnc.out <- string(cmd)
+	sent := 1
 	for msg := range r.Msgs() {
 		switch msg.cmd {
 		case cmd:
 			return msg.value, nil
 		case cmdFault:
 			return nil, errors.New(msg.String())
+		case cmdCRCFault:
+			// The TNC did not get the frame (serial host interface): send it again.
+			if sent == 3 {
+				return nil, errors.New("CRC failure")
+			}
+			tnc.out <- string(cmd)
+			sent++
 		}
 	}
 	return nil, ErrTNCClosed
